@@ -130,6 +130,8 @@ def run3(S, which, big):
     elif which == "spreadskill":
         S.assume(S.and_(t[0] < t[1], t[1] < t[2]))
         pl.thresholds = S.vector(t)
+        if S.choose("-q", 2):
+            pl.quantiles = S.const([0.9, 0.1])      # -q in any order: the interval is between the lowest and the highest level
     elif which == "droc":
         pl.thresholds = S.const([1.0])
         pl.bin_type = "above"
